@@ -33,6 +33,34 @@ def gen_policy(rng, shape=None):
         return (rp.retry_policy(wait=rp.wait_fixed(wv), stop=rp.stop_after_delay(d)),
                 "{| p_retry := None; p_wait := (WFixed %s); p_stop := (SAfterDelay %s) |}" % (R.q(wv), R.q(d)),
                 dict(shape="delay", d=d, w=wv, wait=rp.wait_fixed(wv)))
+    if shape == "nested":
+        # stop conditions nested through the operators and the constructors, with leaves whose value is obvious:
+        # A n = "at least n failures", T = elapsed >= 0 (always), F = elapsed >= 10^6 s (never within a chain)
+        def leaf():
+            c = rng.random()
+            if c < 0.6:
+                n = rng.choice([1, 2, 3, 4, 5])
+                return ("A", n), rp.stop_after_attempt(n), "(SAfterAttempt %d)" % n
+            if c < 0.8:
+                return ("T",), rp.stop_after_delay(0), "(SAfterDelay %s)" % R.q(0)
+            return ("F",), rp.stop_after_delay(1000000), "(SAfterDelay %s)" % R.q(1000000)
+
+        def tree(depth):
+            if depth >= 3 or (depth > 0 and rng.random() < 0.35):
+                return leaf()
+            is_any = rng.random() < 0.5
+            subs = [tree(depth + 1) for _ in range(rng.choice([2, 2, 3]))]
+            if len(subs) == 2 and rng.random() < 0.6:
+                py = (subs[0][1] | subs[1][1]) if is_any else (subs[0][1] & subs[1][1])
+            else:
+                py = (rp.stop_any if is_any else rp.stop_all)(*[x[1] for x in subs])
+            return (("any" if is_any else "all",) + tuple(x[0] for x in subs), py,
+                    "(%s %s)" % ("SAny" if is_any else "SAll", glist(x[2] for x in subs)))
+        t, py, g = tree(0)
+        wv = rng.choice([0, 0.25, 0.5])
+        return (rp.retry_policy(wait=rp.wait_fixed(wv), stop=py),
+                "{| p_retry := None; p_wait := (WFixed %s); p_stop := %s |}" % (R.q(wv), g),
+                dict(shape="nested", stop_tree=t, wait=rp.wait_fixed(wv)))
     if shape == "never":
         w = R.gen_wait(rng, jitter=False)
         return (rp.retry_policy(retry=rp.retry_if_exception_type(KeyError), wait=w[0], stop=rp.stop_after_attempt(5)),
@@ -50,7 +78,7 @@ def gen_policy(rng, shape=None):
 
 
 def gen_case(rng):
-    shape = rng.choice(["attempt", "attempt", "delay", "never", None, None, None])
+    shape = rng.choice(["attempt", "attempt", "delay", "never", "nested", "nested", None, None, None])
     pol, g, info = gen_policy(rng, shape)
     if shape == "never":
         xs = [rng.choice([ValueError, RuntimeError, R.E0])(rng.choice(R.MSGS)) for _ in range(NEXC)]
@@ -96,3 +124,17 @@ def encode(execs, wfe):
 
 def coq_case(g, xs, expect):
     return "chain_case (fun _ _ => false) %s %s %s" % (g, glist(R.g_exn(x) for x in xs), glist(gz(z) for z in expect))
+
+
+
+def stop_oracle(tree, failures):
+    """the documented meaning of a nested stop condition (leaves: A n / T / F, see gen_policy shape "nested")"""
+    k = tree[0]
+    if k == "A":
+        return failures >= tree[1]
+    if k == "T":
+        return True
+    if k == "F":
+        return False
+    vals = [stop_oracle(x, failures) for x in tree[1:]]
+    return any(vals) if k == "any" else all(vals)
